@@ -150,7 +150,7 @@ class ScriptedCoupling:
 class ScriptedProcess:
     """Standard-engine collaborator returning a given list of paths, each exactly once, counting the calls."""
 
-    def __init__(self, paths, df, representation=None, dimension=1, x0=0.0):
+    def __init__(self, paths, df, representation=None, dimension=1, x0=0.0, drift=0.0):
         from rpylib.process.process import ProcessRepresentation
 
         self.paths = paths
@@ -160,6 +160,7 @@ class ScriptedProcess:
         self._dimension = dimension
         self.model = ScriptedStdModel(dimension)
         self.x0 = x0
+        self.drift = drift
         self.precomp = []
 
     def dimension(self):
@@ -174,8 +175,8 @@ class ScriptedProcess:
     def deterministic_path(self, times):
         t = np.asarray(times, dtype=float)
         if self._dimension == 1:
-            return np.zeros_like(t) + self.x0
-        return np.zeros((self._dimension, len(t))) + self.x0
+            return np.zeros_like(t) + self.x0 + self.drift * t
+        return np.zeros((self._dimension, len(t))) + self.x0 + self.drift * t
 
     def df(self, t):
         return self._df
